@@ -151,7 +151,7 @@ def main(argv: list[str] | None = None) -> int:
         "caps_hit": total.caps,
         "shards": len(shards),
         "workers": nworkers,
-        "bounds": mod.bounds(tier) if hasattr(mod, "bounds") else {},
+        "bounds": {**(mod.bounds(tier) if hasattr(mod, "bounds") else {}), **({"scale_lane": mod.SCALE_LANE} if hasattr(mod, "SCALE_LANE") else {})},
         "known_findings_hit": known_hits,
         "tree_hash": th,
         "notes": total.notes,
